@@ -249,6 +249,7 @@ func (t *Task) startWith(body func()) {
 		}
 		r.mu.Unlock()
 	}
+	r.G.st.NoteWorker()
 	if !r.Record {
 		r.rawStarts.Add(1)
 	}
